@@ -34,7 +34,7 @@ def main():
             "evidence_file": f"evidence/{pid}.json",
             "replay_cmd_template": f"./check {pid} --replay {{path}}",
             "engine": engine,
-            "level_claimed": {"category": level, "text": text + "; held means: on the executions this run's evidence file describes", "design_ref": f"DESIGN.md §4 {pid}"},
+            "level_claimed": {"category": level, "text": text + "; held means: on the executions this run's evidence file describes", "design_ref": f"DESIGN.md §4 {pid} and §4b"},
             "level_note": note,
             "technique": technique,
         })
